@@ -652,15 +652,17 @@ class NativeH:
         self.choices = choices or {}
         self.infval = self.values.get('INF')
         self.ghost = {}
+        self._memo = {}
 
     # ------------------------------------------------------------ symbols
     def _val(self, name, gen):
         if name in self.values:
             v = self.values[name]
-        elif name in self.record['values']:
-            v = self.record['values'][name]      # a named input has ONE value per run, however often it is asked for
+        elif name in self._memo:
+            v = self._memo[name]      # a named input has ONE value per run, however often it is asked for
         else:
             v = gen()
+        self._memo[name] = v
         self.record['values'][name] = v
         return v
 
@@ -721,6 +723,7 @@ class NativeH:
             if ek == 'int':
                 return [r.randrange(-3, 6) for _ in range(n)]
             return [self._rnd_real(inf) for _ in range(n)]
+        self._memo.pop(name, None)
         v = self._val(name, gen)
         v = [self._flt(x) if ek == 'real' else int(x) for x in v]
         if nd:
